@@ -142,7 +142,7 @@ NEED_CLASSES = ["bitflip", "byte-boundary", "truncate", "adaptive:remainder+vani
                 "adaptive:swap-rows:tq", "adaptive:swap-rows:cq", "adaptive:merkle-node:tq", "adaptive:merkle-node:cq", "adaptive:ood-value",
                 "structured-extend:merkle-node-vector:tq", "structured-extend:merkle-node-vector:cq", "structured-extend:merkle-node:tq",
                 "component-extend:ood.lagrange", "component-extend:commitments", "component-extend:fri.remainder", "component-truncate:tq.values",
-                "edit:fri-layer-added", "edit:gkr-proof-added", "edit:trace-meta", "field:nq", "field:nonce"]
+                "edit:fri-layer-added", "edit:gkr-proof-added", "edit:trace-meta", "field:nq", "field:nonce", "gkr:trailing-bytes", "gkr:truncated"]
 
 
 # Element-level tamper family (coverage round): noncanonical:<component>:<value kind>:<base field | Rescue hasher>.
@@ -168,6 +168,10 @@ def _noncanonical_obligations(ctx, classes):
         if refused != st["mutants"] or st.get("panics", 0) or st.get("accepted_diff", 0):
             bad.append(f"{c}: {st}")
     ctx.ob("noncanonical-cells-all-refused", not bad, "cells with a mutant that was not refused (accepted, panicked, or decoded to the same content): " + "; ".join(bad[:5]))
+    # bytes appended to / removed from the GKR proof of an accepted Lagrange-kernel proof: every mutant refused (finding C03-F6)
+    for c in ("gkr:trailing-bytes", "gkr:truncated"):
+        st = classes.get(c, {})
+        ctx.ob(f"lagrange-{c}-refused", st.get("mutants", 0) > 0 and st.get("rejected", 0) + st.get("parse_err", 0) == st.get("mutants", 0), f"{c}: {st}")
     ctx.notes["noncanonical"] = {"cells_required": len(NC_NEED), "cells_sampled": sum(1 for c in classes if c.startswith("noncanonical:") and classes[c].get("mutants", 0)),
                                  "mutants": sum(st.get("mutants", 0) for c, st in classes.items() if c.startswith("noncanonical:"))}
 
@@ -220,7 +224,8 @@ def run(ctx):
                 "recomputed commitment; swapped / duplicated rows; replaced / swapped Merkle nodes; OOD values), and the element-level family "
                 "noncanonical:<component>:<kind>:<field> (ONE base-field word - first/middle/last element, every limb of an extension element - of the OOD trace states / evaluations / "
                 "Lagrange kernel states, opened main / auxiliary / constraint rows, FRI rows, remainder, and of Rescue digests, overwritten with modulus, modulus+1, all ones, "
-                "modulus+original value, on dedicated accepted proofs over f64 / f128 / f62 incl. all-zero traces and a Lagrange-kernel AIR; every cell must be sampled and refused); oracle: decoded content differs "
+                "modulus+original value, on dedicated accepted proofs over f64 / f128 / f62 incl. all-zero traces and a Lagrange-kernel AIR; every cell must be sampled and refused), "
+                "gkr:trailing-bytes / gkr:truncated (1, 2, 17 zero / 0xff / random bytes appended to the GKR proof of accepted Lagrange-kernel proofs, length prefix re-serialised; the GKR proof emptied); oracle: decoded content differs "
                 "=> rejected or parse error; distinct = distinct shapes + mutation classes")
     ctx.assumptions += [
         "in scope: AIRs without a Lagrange-kernel column (no GKR sub-protocol), at most one auxiliary trace segment (all that TraceInfo describes)",
